@@ -54,6 +54,32 @@ CLAIMED = {
                 tech="Coq proof over a model regenerated by a translator (case analysis + vm_compute) + exhaustive trait-table comparison with rustc", ref="DESIGN.md §5 C16",
                 note="Trusted: Coq kernel (vm_compute), the translator rs2coq_types.py and the auto-trait rule table of model/AutoTraits.v (both validated against rustc on 768 rows each "
                      "run, not proved), rustc's Send/Sync contract for the final step from trait bits to absence of unsynchronised access. See DESIGN.md section 7."),
+    "C06": dict(text="Theorems (coq/props/C06.v): the worklist machine run with an exact transcription of std's BinaryHeap: whenever a node is popped for expansion, no "
+                     "discovered-and-unexpanded node has a strictly smaller (larger for max) value; the frontier is exactly the discovered unexpanded nodes; the heap "
+                     "transcription is PROVED to keep the heap order and to be a multiset queue; path soundness/completeness, search() agreement, termination; node "
+                     "comparison = value comparison, node equality = key equality. Tied to the four flavours incl. exact tie-breaking order of equal priorities.",
+                tech="Coq proof: heap-order invariant of the BinaryHeap transcription threaded through the worklist machine (instrumented + erasure) + differential correspondence", ref="DESIGN.md §5 C06"),
+    "C11": dict(text="Theorem scc_correct (coq/props/C11.v): for every heap with the mirror invariant, every container closed under adjacency and EVERY iteration order of its "
+                     "hash map, scc() returns a partition of the members into non-empty components in which two nodes share a component exactly when each reaches the other; "
+                     "order independence as a corollary; termination within fuel_bound. Tied to digraph/sync_digraph with the observed iteration order as model input "
+                     "(identical component lists), all digraphs on <=3 (thorough: 4) nodes in several containers, random up to 30 nodes.",
+                tech="Coq proof of Kosaraju's algorithm over the DFS-run relation (leader invariant) + differential correspondence given the observed container order", ref="DESIGN.md §5 C11"),
+    "C12": dict(text="Theorems (coq/props/C12.v): decompose;rebuild returns a graph with the same keys and node values and, per node, the same outgoing (target key, value) list "
+                     "in the same order (directed) / the same multiset of incident half-edges (undirected), for every container order; result satisfies the invariants. "
+                     "The JSON/CBOR codecs themselves are outside the model; the correspondence runs real serde_json and serde_cbor round trips.",
+                tech="Coq proof: list-level refinement of decompose/rebuild + differential correspondence on real JSON and CBOR round trips", ref="DESIGN.md §5 C12"),
+    "C13": dict(text="Theorems (coq/props/C13.v): deserialize is total into {error, graph}; a graph result satisfies the invariants, has exactly the declared keys (first value "
+                     "wins) and exactly the listed edges in order; an error results exactly when an edge names an undeclared key (or the document is ill-typed). Panics/hangs "
+                     "inside serde_json/serde_cbor on arbitrary bytes are outside the model: exercised only (byte mutations, watchdog).",
+                tech="Coq proof: totality and invariants of decode_doc;rebuild + differential correspondence on structurally mutated documents (JSON and CBOR)", ref="DESIGN.md §5 C13"),
+    "C14": dict(text="Theorems (coq/props/C14.v): macro_build (the transcriber of all four forms) yields exactly the listed nodes/values and per node the listed edges in listed "
+                     "order when keys are distinct and listed, and panics naming the first missing key otherwise. Tied to the four macros x four forms + helper macros by a "
+                     "generated program compiled against the working tree (expansion itself is rustc's).",
+                tech="Coq proof (macro_build = rebuild on the listed items) + generated probe crate compiled against the working tree", ref="DESIGN.md §5 C14"),
+    "C18": dict(text="Theorems (coq/props/C18.v): the container refines a finite map key -> node identity: insert/get/index/contains/len/is_empty/remove; to_vec/iter hand out "
+                     "exactly the bound nodes (Permutation, any hash order); roots/leaves/orphans are the members filtered by the C01/C02 predicates; DOT exports contain exactly "
+                     "one node statement per member and one edge statement per iterated edge with the callbacks' attributes.",
+                tech="Coq proof: refinement to an association-list map, permutation lemmas for order-dependent views + differential correspondence given the observed order", ref="DESIGN.md §5 C18"),
 }
 
 PENDING = {
